@@ -139,14 +139,15 @@ func verifActiveHistory(rounds int, rejoin bool) {
 	}
 }
 
-// VerifActiveHysteresis: hosts appear (possibly late), are checked, and may
-// leave for good.
+// VerifActiveHysteresis: hosts appear (possibly late), are checked, may leave
+// and may rejoin (the no-rejoin restriction that stepped around the defect of
+// FINDINGS.md is gone now that it is fixed).
 func VerifActiveHysteresis() {
-	verifActiveHistory(verif.Bound("rounds", 4, 6), false)
+	verifActiveHistory(verif.Bound("rounds", 4, 6), true)
 }
 
-// VerifActiveFindingRejoin: as above, and a host that left may rejoin; it has to
-// start healthy again.
+// VerifActiveFindingRejoin: shorter histories with rejoin (regression check for
+// the fixed finding: a host that left and rejoins starts healthy again).
 func VerifActiveFindingRejoin() {
 	verifActiveHistory(verif.Bound("rounds_rejoin", 3, 5), true)
 }
